@@ -49,7 +49,7 @@ pub struct Violation {
 /// How many violations per kind are retained (the smallest by (length, bytes): a deterministic choice).
 const KEEP_PER_KIND: usize = 12;
 /// Cap on hashes collected for the distinct-non-trivial count (global, all workers).
-const DISTINCT_CAP: u64 = 1 << 25;
+pub static DISTINCT_CAP: AtomicU64 = AtomicU64::new(1 << 25);
 static DISTINCT_USED: AtomicU64 = AtomicU64::new(0);
 
 pub fn mix64(mut x: u64) -> u64 {
@@ -212,7 +212,7 @@ impl Acc {
             return;
         }
         self.nontrivial += 1;
-        if DISTINCT_USED.fetch_add(1, Ordering::Relaxed) < DISTINCT_CAP {
+        if DISTINCT_USED.fetch_add(1, Ordering::Relaxed) < DISTINCT_CAP.load(Ordering::Relaxed) {
             self.hashes.push(key);
         }
     }
